@@ -251,6 +251,44 @@ pub fn run(ctx: &mut Ctx) {
         }
         docs.push((text, Some(n)));
     }
+    // wide mappings: n distinct keys (scalar, and a few sequence / mapping keys) with one key -- an early, a middle or
+    // a late one -- repeated somewhere after it: the seen-set must remember every key however many there are
+    {
+        let p = |t: &str| Node::plain(t);
+        let sizes: &[usize] = if quick { &[3, 8, 9, 10, 17, 33] } else { &[2, 3, 7, 8, 9, 10, 15, 16, 17, 31, 32, 33, 64, 65, 129, 300] };
+        for &n in sizes {
+            let key = |i: usize| match i % 7 {
+                5 => Node::Seq { items: vec![p(&format!("s{i}")), p("x")], flow: true, tag: None, anchor: None },
+                6 => Node::Map { entries: vec![(p(&format!("m{i}")), p("y"))], flow: true, anchor: None },
+                _ => p(&format!("k{i}")),
+            };
+            let mut picks: Vec<(usize, usize)> = vec![(0, n), (0, 1), (n / 2, n), (n - 1, n), (1, n / 2 + 1), (n - 2, n - 1)];
+            picks.dedup();
+            for (which, at) in picks {
+                if which >= n || at > n || at <= which {
+                    continue;
+                }
+                // the n keys in order, with key `which` inserted again before position `at` (at == n: at the end)
+                let mut entries: Vec<(Node, Node)> = Vec::new();
+                for i in 0..n {
+                    if i == at {
+                        entries.push((key(which), p("again")));
+                    }
+                    entries.push((key(i), p(&i.to_string())));
+                }
+                if at == n {
+                    entries.push((key(which), p("again")));
+                }
+                for flow in [false, true] {
+                    let d = Node::Map { entries: entries.clone(), flow, anchor: None };
+                    docs.push((docgen::render_doc(&d), Some(d)));
+                }
+            }
+            // and the same n keys without any repetition
+            let d = Node::Map { entries: (0..n).map(|i| (key(i), p(&i.to_string()))).collect(), flow: false, anchor: None };
+            docs.push((docgen::render_doc(&d), Some(d)));
+        }
+    }
     for (text, node) in &docs {
         let dup = node.as_ref().map(|n| docgen::expand(n).map(|e| has_dup(&e)).unwrap_or(false));
         for pol in [P::Error, P::FirstWins, P::LastWins] {
